@@ -1,0 +1,73 @@
+//! Verification hooks. Only compiled with `--features verif-hooks`.
+//!
+//! This module is add-only instrumentation: thin wrappers that expose
+//! crate-private functions to an external verification harness. Nothing
+//! here changes behaviour of the server.
+#![allow(clippy::unwrap_used)]
+#![allow(clippy::expect_used)]
+#![allow(missing_docs)]
+
+use crate::prelude::*;
+use crate::repl::proto::ReplCidRange;
+use crate::repl::ruv::{RangeDiffStatus, ReplicationUpdateVector};
+use std::collections::BTreeMap;
+
+/// A public mirror of the crate-private `RangeDiffStatus`.
+#[derive(Debug, PartialEq, Eq)]
+pub enum HookRangeDiff {
+    Ok(BTreeMap<Uuid, (Duration, Duration)>),
+    Refresh(BTreeMap<Uuid, (Duration, Duration)>),
+    Unwilling(BTreeMap<Uuid, (Duration, Duration)>),
+    Critical(
+        BTreeMap<Uuid, (Duration, Duration)>,
+        BTreeMap<Uuid, (Duration, Duration)>,
+    ),
+    NoRUVOverlap,
+}
+
+fn conv(m: BTreeMap<Uuid, ReplCidRange>) -> BTreeMap<Uuid, (Duration, Duration)> {
+    m.into_iter()
+        .map(|(k, v)| (k, (v.ts_min, v.ts_max)))
+        .collect()
+}
+
+/// Call the real `ReplicationUpdateVector::range_diff`.
+pub fn range_diff(
+    consumer: &BTreeMap<Uuid, (Duration, Duration)>,
+    supplier: &BTreeMap<Uuid, (Duration, Duration)>,
+) -> HookRangeDiff {
+    let c: BTreeMap<Uuid, ReplCidRange> = consumer
+        .iter()
+        .map(|(k, (a, b))| {
+            (
+                *k,
+                ReplCidRange {
+                    ts_min: *a,
+                    ts_max: *b,
+                },
+            )
+        })
+        .collect();
+    let s: BTreeMap<Uuid, ReplCidRange> = supplier
+        .iter()
+        .map(|(k, (a, b))| {
+            (
+                *k,
+                ReplCidRange {
+                    ts_min: *a,
+                    ts_max: *b,
+                },
+            )
+        })
+        .collect();
+    match ReplicationUpdateVector::range_diff(&c, &s) {
+        RangeDiffStatus::Ok(m) => HookRangeDiff::Ok(conv(m)),
+        RangeDiffStatus::Refresh { lag_range } => HookRangeDiff::Refresh(conv(lag_range)),
+        RangeDiffStatus::Unwilling { adv_range } => HookRangeDiff::Unwilling(conv(adv_range)),
+        RangeDiffStatus::Critical {
+            lag_range,
+            adv_range,
+        } => HookRangeDiff::Critical(conv(lag_range), conv(adv_range)),
+        RangeDiffStatus::NoRUVOverlap => HookRangeDiff::NoRUVOverlap,
+    }
+}
